@@ -27,12 +27,14 @@ deriving DecidableEq, Repr
 structure Sys where
   db : Db
   now : Int
+  entered : List (Claimant × Key × Int)   -- has read the clock (`now` at entry), has not issued the UPDATE yet
   pending : List (Claimant × Key × Int)   -- between the UPDATE (0 rows) and the INSERT, with the `now` read at entry
   wins : List Win                         -- ghost: successful claims since the last release of their key
   lost : List (Claimant × Key)            -- ghost: attempts that returned false / error
 
 inductive Ev
-  | start (c : Claimant) (k : Key)        -- first statement of try_start_fetch
+  | enter (c : Claimant) (k : Key)        -- try_start_fetch entered: the clock is read
+  | update (c : Claimant)                 -- first statement (conditional UPDATE), with the clock value read at entry
   | insert (c : Claimant)                 -- second statement (only if pending)
   | startAtomic (c : Claimant) (k : Key)  -- both statements under the handle mutex
   | busy (c : Claimant)                   -- the pending statement fails with SQLITE_BUSY
@@ -42,13 +44,18 @@ inductive Ev
 
 def timeout : Int := Generated.fetchTimeoutMs
 
-def init (db : Db) (now : Int) : Sys := ⟨db, now, [], [], []⟩
+def init (db : Db) (now : Int) : Sys := ⟨db, now, [], [], [], []⟩
 
 def step (σ : Sys) : Ev → Sys
-  | .start c k =>
-    let (db', n) := σ.db.stmtClaimUpdate k σ.now (σ.now - timeout)
-    if n > 0 then { σ with db := db', wins := ⟨c, k, σ.now⟩ :: σ.wins }
-    else { σ with db := db', pending := (c, k, σ.now) :: σ.pending }
+  | .enter c k => { σ with entered := (c, k, σ.now) :: σ.entered }
+  | .update c =>
+    match σ.entered.find? (·.1 == c) with
+    | none => σ
+    | some (_, k, t0) =>
+      let (db', n) := σ.db.stmtClaimUpdate k t0 (t0 - timeout)
+      let ent := σ.entered.filter (·.1 != c)
+      if n > 0 then { σ with db := db', entered := ent, wins := ⟨c, k, t0⟩ :: σ.wins }
+      else { σ with db := db', entered := ent, pending := (c, k, t0) :: σ.pending }
   | .insert c =>
     match σ.pending.find? (·.1 == c) with
     | none => σ
@@ -66,7 +73,7 @@ def step (σ : Sys) : Ev → Sys
     | none => σ
     | some (_, k, _) => { σ with pending := σ.pending.filter (·.1 != c), lost := (c, k) :: σ.lost }
   | .release k => { σ with db := σ.db.stmtFinish k, wins := σ.wins.filter (·.key != k) }
-  | .die c => { σ with pending := σ.pending.filter (·.1 != c) }
+  | .die c => { σ with pending := σ.pending.filter (·.1 != c), entered := σ.entered.filter (·.1 != c) }
   | .tick d => { σ with now := σ.now + d }
 
 def runEvs (σ : Sys) (evs : List Ev) : Sys := evs.foldl step σ
